@@ -168,6 +168,22 @@ theorem segment_crash_content (encs : List Bytes) (k n : Nat) :
   have := crash_appendHist encs [] k n
   simpa using this
 
+/-- Segment replay at byte level (`loadSegmentBatches`): complete valid batches followed by a torn batch — any proper
+prefix of a valid batch, no CRC assumption — replay to exactly the complete batches; and batch k is given index entry k
+of the index file as it is (`pairIdx`), whatever that file holds. -/
+theorem segment_torn_tail (crc : Bytes → Nat) (idx : Bytes) (raws : List Bytes) (bs : List Batch) (h : AllOK crc raws bs)
+    (raw0 : Bytes) (b0 : Batch) (h0 : BatchOK crc raw0 b0) (n : Nat) (hn : n < raw0.length) :
+    loadSegment crc (raws.flatten ++ raw0.take n) idx = pairIdx crc idx 0 bs := by
+  unfold loadSegment
+  exact seg_load crc idx raws bs h raw0 b0 h0 n hn _ 0 (by
+    have := flatten_length_ge crc raws bs h
+    simp only [List.length_append]; omega)
+
+example : ∃ raw b, BatchOK (fun _ => 0) raw b :=
+  have h : (decodeBatch (fun _ => 0) (List.replicate 11 0 ++ [49] ++ List.replicate 49 0)).isSome := by decide
+  ⟨List.replicate 11 0 ++ [49] ++ List.replicate 49 0, (decodeBatch (fun _ => 0) _).get h, by decide, by decide,
+   (Option.some_get h).symm⟩
+
 /-- offsets: (first, count) batches are contiguous from `start`. -/
 def Contig : Nat → List (Nat × Nat) → Prop
   | _, [] => True
@@ -213,5 +229,33 @@ theorem pairing_all_histories_fails :
 theorem pairing_witness_replay :
     (SegIdx.runGens (⟨[], []⟩ : SegIdx Nat Nat) [⟨[], some (0, 100, .segOnly)⟩, ⟨[(1, 101)], none⟩]).paired
       = [(0, some 101), (1, none)] := by decide
+
+/-! ## Transactions open at a crash -/
+
+/-- CRASH-ABORT DURABILITY (false):
+  `∀ bs later a, a ∈ fullReplayAborted bs → ∃ a' ∈ fullReplayAborted (bs ++ later), a'.pid = a.pid ∧ a'.first = a.first`
+i.e. a transaction that one recovery (`loadPartitionFullReplay`) implicitly aborts — it was open at the crash — stays
+aborted in every later recovery of the extended log. The implicit abort lives only in memory (and in the snapshot of a
+clean Close): no abort marker is appended, so a later full replay closes the old transaction with the producer's next
+COMMIT marker. What holds trivially (`_partial`): as long as nothing is appended. -/
+theorem crash_abort_durable_partial (bs : List (Batch × IdxMeta)) (a : Aborted) (h : a ∈ fullReplayAborted bs) :
+    ∃ a' ∈ fullReplayAborted (bs ++ []), a'.pid = a.pid ∧ a'.first = a.first :=
+  ⟨a, by simpa using h, rfl, rfl⟩
+
+def wT (pid first : Nat) : Batch × IdxMeta :=
+  (⟨first, 1, pid, 0, 0, 16, 0, 70, false, false⟩, { inTx := true })
+def wCommit (pid first : Nat) : Batch × IdxMeta :=
+  (⟨first, 1, pid, 0, -1, 48, 0, 70, true, false⟩, {})
+
+/-- Negation (key `crash-aborted-txn-has-no-marker`): producer 7 has a transaction open at offset 0 when the crash
+happens; after restart it produces offset 1 in a new transaction and commits (marker at 2). The first recovery lists
+(7, 0) as aborted, the next full replay lists nothing: the records at offset 0 have become committed. -/
+theorem crash_abort_not_durable :
+    ¬ ∀ (bs later : List (Batch × IdxMeta)) (a : Aborted), a ∈ fullReplayAborted bs →
+        ∃ a' ∈ fullReplayAborted (bs ++ later), a'.pid = a.pid ∧ a'.first = a.first := by
+  intro h
+  have := h [wT 7 0] [wT 7 1, wCommit 7 2] ⟨7, 0, 0⟩ (by decide)
+  revert this
+  decide
 
 end Props.C33
